@@ -277,6 +277,17 @@ def run(prop, res, tier, seed):
             res.add_violation("C09/wrong-type/access-on-late-bound-parameter",
                               f"`apply(Box(1.5), fn(b) {{ b.value }})`: the function's type is shown as `{shown}`, Gleam's is `fn() -> Float`",
                               {"texts": {"m1": fixed}, "binder": "late", "shown": shown})
+    fixed2 = "pub fn add(a: Int, b: Int) {\n  a + b\n}\n\npub fn piped(x) {\n  x |> add(1, _)\n}\n"
+    lines = ["ws-begin", f"file\t/w/p/src/m1.gleam\t{hexs(fixed2)}", "file\t/w/p/gleam.toml\t" + hexs('name = "p"\n'), "root\t/w/p\t0,1", "pkg\tp\t1\t1\t-", "ws-end",
+             f"hover\t0\t{fixed2.index('piped')}"]
+    out, rc = common.run_lines(common.HARNESS_BIN, lines)
+    res.cov["evaluations"] += 1
+    if len(out) == len(lines) and " " in out[-1]:
+        shown = strip_md(unhexs(out[-1].split(" ", 1)[1]))
+        if shown is not None and re.sub(r"\s+", "", shown) != "fn(Int)->Int":
+            res.add_violation("C09/wrong-type/pipe-into-capture",
+                              f"`x |> add(1, _)`: the function's type is shown as `{shown}`, Gleam's is `fn(Int) -> Int`",
+                              {"texts": {"m1": fixed2}, "binder": "piped", "shown": shown})
     # 2. programs
     stats, vstats = run_programs(res, rng, 40 if tier == "quick" else 1200, tier)
     if vstats["expected_rejected"] > 0.5 * max(1, vstats["expected_ok"] + vstats["expected_rejected"]):
